@@ -234,3 +234,35 @@ V("c03-preserving-fraction-product", "C03", "silent",
 V("c03-preserving-none-test-flipped", "C03", "silent",
   (UTILS, "    if shots is None:\n        return {\n            sample: probability\n            for sample, probability in probability_map.items()\n            if not np.isclose(probability, 0.0)\n        }\n",
    "    if not (shots is not None):\n        return {\n            sample: probability\n            for sample, probability in probability_map.items()\n            if not np.isclose(probability, 0.0)\n        }\n"))
+
+# ------------------------------------------------------------------------------------------- C11
+GSS = "piquasso/_simulators/gaussian/simulation_steps.py"
+PSAMP = "piquasso/_simulators/passive/sampling.py"
+V("c11-np-global-normal", "C11", {"rule": "C11a", "contains": "np.random"},
+  (GSS, "    pure_mean = mean + sqrt_cov_1 @ rng.normal(size=2 * d)", "    pure_mean = mean + sqrt_cov_1 @ np.random.normal(size=2 * d)"))
+V("c11-global-shuffle-result", "C11", {"rule": "C11a", "contains": "random.shuffle"},
+  ("piquasso/api/result.py", "        r = random.Random(self._config.seed_sequence)\n        r.shuffle(_samples)", "        random.shuffle(_samples)"))
+V("c11-unseeded-generator", "C11", {"rule": "C11a", "contains": "unseeded"},
+  (GSS, "    rng = np.random.default_rng(seed)\n", "    rng = np.random.default_rng()\n"))
+V("c11-dask-seed-differs", "C11", {"rule": "C11b", "contains": "use_dask"},
+  (PSAMP, "            compute_list.append(delayed_func(seed=seed + idx))", "            compute_list.append(delayed_func(seed=seed + 2 * idx))"))
+V("c11-dask-range-differs", "C11", {"rule": "C11b", "contains": "use_dask"},
+  (GSS, "        for idx in range(shots):\n            compute_list.append(delayed_func(seed=seed + idx))", "        for idx in range(1, shots + 1):\n            compute_list.append(delayed_func(seed=seed + idx))"))
+V("c11-seed-ignores-config", "C11", {"rule": "C11b", "contains": "seed"},
+  (PSAMP, "    seed = config.seed_sequence\n\n    if config.use_dask:", "    seed = 12345\n\n    if config.use_dask:"))
+V("c11-shared-rng-in-region", "C11", {"rule": "C11c", "contains": "region"},
+  (PSAMP, "def _sample_from_pmf(pmf, rng):\n    return rng.choice(np.arange(pmf.shape[0]), p=pmf)", "def _sample_from_pmf(pmf, rng, config=None):\n    return (config.rng if config is not None else rng).choice(np.arange(pmf.shape[0]), p=pmf) if False else _shared().rng.choice(np.arange(pmf.shape[0]), p=pmf)\n\n\ndef _shared():\n    from piquasso.api.config import Config\n    return Config()"))
+V("c11-prange-shared-scalar-index", "C11", {"rule": "C11d", "contains": "prange"},
+  ("piquasso/_math/hafnian/plain_hafnian.py", "        delta = np.empty_like(all_edges)\n\n        for i in range(number_of_reps):\n            no_of_edges = all_edges[i]\n            no_of_kept_edges = kept_edges[i]\n\n            fact ^= (no_of_edges - no_of_kept_edges) % 2\n\n            comb_input = (no_of_edges, no_of_kept_edges)",
+   "        delta = np.empty_like(all_edges)\n        all_edges[0] = all_edges[0]\n\n        for i in range(number_of_reps):\n            no_of_edges = all_edges[i]\n            no_of_kept_edges = kept_edges[i]\n\n            fact ^= (no_of_edges - no_of_kept_edges) % 2\n\n            comb_input = (no_of_edges, no_of_kept_edges)"))
+V("c11-omp-no-remainder", "C11", {"rule": "C11d", "contains": "remainder"},
+  ("src/permanent.cpp", "        if (job_idx == concurrency - 1)\n        {\n            offset_max = idx_max - 1;\n        }\n", ""))
+V("c11-omp-shared-accumulator", "C11", {"rule": "C11d", "contains": "shared"},
+  ("src/permanent.cpp", "        TComplex &addend_loc = thread_results[static_cast<unsigned int>(job_idx)];", "        TComplex &addend_loc = thread_results[0];"))
+V("c11-memo-mutated", "C11", {"rule": "C11e", "contains": "get_fock_space_basis"},
+  ("piquasso/_simulators/fock/pure/simulation_steps/__init__.py", "    space = get_fock_space_basis(d=state.d, cutoff=state._config.cutoff)\n\n    xi = instruction._get_all_params(state._connector)[\"xi\"]\n    np = state._np",
+   "    space = get_fock_space_basis(d=state.d, cutoff=state._config.cutoff)\n    space[:, 0] += 0\n\n    xi = instruction._get_all_params(state._connector)[\"xi\"]\n    np = state._np"))
+V("c11-preserving-rng-renamed", "C11", "silent",
+  (GSS, "    rng = np.random.default_rng(seed)\n\n    possible_choices", "    generator = np.random.default_rng(seed)\n    rng = generator\n\n    possible_choices"))
+V("c11-preserving-private-generator-in-result", "C11", "silent",
+  ("piquasso/api/result.py", "        r = random.Random(self._config.seed_sequence)\n        r.shuffle(_samples)", "        shuffler = random.Random(self._config.seed_sequence)\n        shuffler.shuffle(_samples)"))
